@@ -157,4 +157,105 @@ theorem get_ok_facts (cfg : Cfg) (d : Desc) (toks : List Nat) (key : Nat) (op : 
   · intro i hi
     exact walk_subset cfg d _ 1 op _ _ l hwalk i (hsub.subset hi)
 
+/-! ### the same facts for EVERY token→owner index -/
+
+theorem walkO_tokenInfo (cfg : Cfg) (d : Desc) (zones : List String) (target : Nat) (op : Op) :
+    ∀ (L : List Nat) (st : WalkSt), walkO cfg d (tokenInfo d) zones target op L st = walk cfg d zones target op L st := by
+  intro L
+  induction L with
+  | nil => intro st; rw [walkO, walk]
+  | cons t rest ih =>
+    intro st
+    rw [walkO, walk]
+    simp only [ih]
+
+theorem getWithO_tokenInfo (cfg : Cfg) (d : Desc) (toks : List Nat) (key : Nat) (op : Op) (now rfCall : Int) :
+    getWithO cfg d (tokenInfo d) toks key op now rfCall = getWith cfg d toks key op now rfCall := by
+  unfold getWithO getWith findInstancesForKeyO findInstancesForKey
+  simp only [walkO_tokenInfo]
+
+theorem walkO_facts (cfg : Cfg) (d : Desc) (owner : Nat → Option Inst) (zones : List String) (target : Nat) (op : Op) :
+    ∀ (L : List Nat) (st : WalkSt) (out : List Inst), walkO cfg d owner zones target op L st = .ok out →
+      (out.map (·.id)).Nodup ∧ (∀ i ∈ out, i.id ∉ st.distinct) ∧ (∀ i ∈ out, ∃ t, owner t = some i) := by
+  intro L
+  induction L with
+  | nil =>
+    intro st out h; rw [walkO] at h; cases h
+    exact ⟨List.nodup_nil, (fun i hi => by cases hi), (fun i hi => by cases hi)⟩
+  | cons t rest ih =>
+    intro st out h
+    rw [walkO] at h
+    split at h
+    · cases h; exact ⟨List.nodup_nil, (fun i hi => by cases hi), (fun i hi => by cases hi)⟩
+    · split at h
+      · cases h; exact ⟨List.nodup_nil, (fun i hi => by cases hi), (fun i hi => by cases hi)⟩
+      · split at h
+        · cases h
+        · rename_i inst hinfo
+          split at h
+          · exact ih st out h
+          · rename_i hnc
+            split at h
+            · cases h
+            · split at h
+              · exact ih st out h
+              · cases hw : walkO cfg d owner zones target op rest (st.select cfg op inst) with
+                | error e => rw [hw] at h; cases h
+                | ok out' =>
+                  rw [hw] at h
+                  have hout : out = inst :: out' := by cases h; rfl
+                  subst hout
+                  obtain ⟨ihn, ihd, iho⟩ := ih _ out' hw
+                  rw [select_distinct] at ihd
+                  have hnd : inst.id ∉ st.distinct := by simpa using hnc
+                  refine ⟨?_, ?_, ?_⟩
+                  · rw [List.map_cons, List.nodup_cons]
+                    refine ⟨?_, ihn⟩
+                    intro hm
+                    rcases List.mem_map.mp hm with ⟨j, hj, hjid⟩
+                    exact ihd j hj (List.mem_append.mpr (Or.inr (by simp [hjid])))
+                  · intro i hi
+                    rcases List.mem_cons.mp hi with rfl | hi'
+                    · exact hnd
+                    · exact fun hmem => ihd i hi' (List.mem_append.mpr (Or.inl hmem))
+                  · intro i hi
+                    rcases List.mem_cons.mp hi with rfl | hi'
+                    · exact ⟨t, hinfo⟩
+                    · exact iho i hi'
+
+/-- whatever index `owner` the ring holds: a successful lookup returns instances with pairwise distinct
+ids, a tolerance strictly below their number, and only instances the index points to. -/
+theorem getWithO_ok_facts (cfg : Cfg) (d : Desc) (owner : Nat → Option Inst) (toks : List Nat) (key : Nat) (op : Op)
+    (now rfCall : Int) (W : RSet) (h : getWithO cfg d owner toks key op now rfCall = .ok W) :
+    (W.instances.map (·.id)).Nodup ∧ W.instances.Nodup ∧ W.maxErrors < W.instances.length ∧
+    (∀ i ∈ W.instances, ∃ t, owner t = some i) := by
+  unfold getWithO at h
+  split at h
+  · cases h
+  · dsimp only at h
+    generalize hrf : (if rfCall ≤ 0 ∨ rfCall < (cfg.rf : Int) then cfg.rf else rfCall.toNat) = rf at h
+    split at h
+    · cases h
+    · unfold findInstancesForKeyO at h
+      split at h
+      · cases h
+      · dsimp only at h
+        cases hw : walkO cfg d owner (ringZones d) (max 1 (rf / cfg.rf)) op (rot toks (searchToken toks key)) { size := rf } with
+        | error e => rw [hw] at h; cases h
+        | ok l =>
+          rw [hw] at h
+          have hf : C01.filter cfg op now rf l = .ok W := h
+          rw [filter_exact] at hf
+          obtain ⟨hids, _, hown⟩ := walkO_facts cfg d owner _ _ op _ _ l hw
+          split at hf
+          · cases hf
+          · rename_i hge
+            cases hf
+            have hsub : (l.filter (isHealthy op cfg.hbTimeout now)).Sublist l := List.filter_sublist
+            have hidsW := List.Nodup.sublist (List.Sublist.map (·.id) hsub) hids
+            refine ⟨hidsW, nodup_of_map _ _ hidsW, ?_, fun i hi => hown i (hsub.subset hi)⟩
+            simp only
+            have := majority_pos rf l.length
+            omega
+
 end PfC01
